@@ -77,8 +77,10 @@ def gen_write_lens(rng, nmax=30):
             v = 1012 * rng.randint(1, 6) + rng.choice([-1, 0, 0, 1])
         elif r < 0.90:
             v = rng.randint(1, 1100)
-        else:
+        elif r < 0.98:
             v = rng.randint(1, 6100)
+        else:
+            v = rng.randint(6100, 14000)
         out.append(v)
     return out
 
@@ -98,7 +100,9 @@ def gen_read_sizes(rng, nmax=40):
             v = rng.randint(2020, 2028)
         elif r < 0.90:
             v = rng.randint(1, 1100)
-        else:
+        elif r < 0.97:
             v = rng.randint(1, 5000)
+        else:
+            v = 1012 * rng.randint(3, 9) + rng.choice([-1, 0, 0, 1, 2])
         out.append(v)
     return out
